@@ -45,6 +45,7 @@ COMMON = [
     {},
     {"label": "x", "units": "mrad", "tex_label": "$x$"},
     {"label": "q", "_ensemble_mean": True, "_squeeze": True},
+    {"label": "n", "units": None, "tex_label": None},  # optional fields explicitly None (several classes default them to a string)
 ]
 LINEAR = [{"sampling": 1.0, "offset": 0.0}, {"sampling": 0.37, "offset": 1.5}, {"sampling": 2.5, "offset": -2.5}]
 
